@@ -36,28 +36,28 @@ func (c04) Plan(tier string) []core.Segment {
 	segs := []core.Segment{
 		{Gen: "spec", Count: gen.CorpusSize(), Exhaustive: true, Desc: "spec 0.30 examples + repo fuzz seeds"},
 		{Gen: "specprefix", Count: gen.PrefixCount(), Exhaustive: true, Desc: "every prefix of every corpus document (end of input inside every construct)"},
-		{Gen: "lines", Profile: "default", Count: scale(tier, 400_000, 16_000_000)},
+		{Gen: "lines", Profile: "default", Count: scale(tier, 400_000, 5_000_000)},
 		{Gen: "limits", Profile: "default", Count: scale(tier, 4_000, 100_000), Desc: "documents on numeric thresholds: 999-character labels, 9-digit list numbers, reference digit counts, scheme and domain lengths, line endings on the 8 KiB read window, indentation columns, long runs, deep nesting"},
-		{Gen: "defsplit", Profile: "default", Count: scale(tier, 150_000, 6_000_000), Desc: "definition-like paragraphs cut into lines at every place, inside containers with space/tab/partly consumed tab prefixes and hostile bytes right after the prefix"},
-		{Gen: "inlinex", Profile: "default", Count: scale(tier, 200_000, 8_000_000), Desc: "well-formed inline trees whose delimiter tokens were deleted, duplicated, moved, swapped or respelled: constructs crossing each other's boundaries"},
-		{Gen: "modeldoc", Profile: "full", Count: scale(tier, 40_000, 2_000_000), Desc: "Markdown of model documents: nested containers, structural tabs, laziness, multi-line inline constructs"},
-		{Gen: "modeldoc", Profile: "deep", Count: scale(tier, 4000, 200000), Desc: "Markdown of model documents: nested containers, structural tabs, laziness, multi-line inline constructs", Batch: 2000},
-		{Gen: "lines", Profile: "hostile", Count: scale(tier, 150_000, 4_000_000)},
-		{Gen: "soup", Profile: "default", Count: scale(tier, 300_000, 12_000_000)},
-		{Gen: "soup", Profile: "inline", Count: scale(tier, 150_000, 6_000_000)},
-		{Gen: "specmut", Count: scale(tier, 200_000, 8_000_000)},
+		{Gen: "defsplit", Profile: "default", Count: scale(tier, 150_000, 2_000_000), Desc: "definition-like paragraphs cut into lines at every place, inside containers with space/tab/partly consumed tab prefixes and hostile bytes right after the prefix"},
+		{Gen: "inlinex", Profile: "default", Count: scale(tier, 200_000, 2_500_000), Desc: "well-formed inline trees whose delimiter tokens were deleted, duplicated, moved, swapped or respelled: constructs crossing each other's boundaries"},
+		{Gen: "modeldoc", Profile: "full", Count: scale(tier, 40_000, 600_000), Desc: "Markdown of model documents: nested containers, structural tabs, laziness, multi-line inline constructs"},
+		{Gen: "modeldoc", Profile: "deep", Count: scale(tier, 4000, 60000), Desc: "Markdown of model documents: nested containers, structural tabs, laziness, multi-line inline constructs", Batch: 2000},
+		{Gen: "lines", Profile: "hostile", Count: scale(tier, 150_000, 1_500_000)},
+		{Gen: "soup", Profile: "default", Count: scale(tier, 300_000, 4_000_000)},
+		{Gen: "soup", Profile: "inline", Count: scale(tier, 150_000, 2_000_000)},
+		{Gen: "specmut", Count: scale(tier, 200_000, 2_500_000)},
 		{Gen: "patho", Count: gen.PathoCount(), Exhaustive: true, Desc: "pathological templates x sizes up to 16 KiB"},
 		{Gen: "small", Profile: "c02:5", Count: gen.Size("small", "c02:5"), Exhaustive: true},
 	}
 	segs = append(segs,
-		core.Segment{Gen: "soup", Profile: "hostile", Count: scale(tier, 150_000, 6_000_000), Desc: "more hostile soup (NUL, CR, invalid UTF-8)"},
-		core.Segment{Gen: "soup", Profile: "html", Count: scale(tier, 100_000, 4_000_000), Desc: "HTML-heavy soup (filterRaw scanner, HTML block conditions)"},
-		core.Segment{Gen: "soup", Profile: "inject", Count: scale(tier, 50_000, 2_000_000)},
-		core.Segment{Gen: "soup", Profile: "crnul", Count: scale(tier, 50_000, 2_000_000)},
+		core.Segment{Gen: "soup", Profile: "hostile", Count: scale(tier, 150_000, 2_000_000), Desc: "more hostile soup (NUL, CR, invalid UTF-8)"},
+		core.Segment{Gen: "soup", Profile: "html", Count: scale(tier, 100_000, 1_500_000), Desc: "HTML-heavy soup (filterRaw scanner, HTML block conditions)"},
+		core.Segment{Gen: "soup", Profile: "inject", Count: scale(tier, 50_000, 700_000)},
+		core.Segment{Gen: "soup", Profile: "crnul", Count: scale(tier, 50_000, 700_000)},
 		core.Segment{Gen: "small", Profile: "c17:5", Count: gen.Size("small", "c17:5"), Exhaustive: true, Desc: "all strings <= 5 symbols over the raw-HTML alphabet"},
 		core.Segment{Gen: "small", Profile: "c14:5", Count: gen.Size("small", "c14:5"), Exhaustive: true},
 		core.Segment{Gen: "small", Profile: c04small(tier), Count: gen.Size("small", c04small(tier)), Exhaustive: true, Desc: "all strings <= 4 (quick) / 5 (thorough) symbols over {backtick, ~, backslash, SP, a, LF, [, ], (, ), <, >, double quote, &, -, TAB}: unterminated constructs at end of input"},
-		core.Segment{Gen: "bigdoc", Count: scale(tier, 600, 20000), Desc: "8-40 KiB documents of many small blocks", Batch: 50},
+		core.Segment{Gen: "bigdoc", Count: scale(tier, 600, 6000), Desc: "8-40 KiB documents of many small blocks", Batch: 50},
 		core.Segment{Gen: "prose", Count: scale(tier, 12, 120), Desc: "prose-like documents 8 KiB .. 2 MiB", Batch: 1},
 		core.Segment{Gen: "hugeblock", Count: gen.Size("hugeblock", ""), Exhaustive: true, Desc: "single root blocks around and above the streaming block-size limit (1 MiB buffer, NUL counted three times): totality only", Batch: 1},
 	)
